@@ -49,7 +49,11 @@ pub enum EncodeError<FormatError> {
 pub fn parse_multiformat_bytes(
     data: &[u8],
 ) -> Result<(SerializationCodec, &[u8]), varint_decode::Error> {
-    varint_decode::u32(data)
+    // decode::u32 silently drops the bits of a fifth byte that don't fit u32, so a wider code of
+    // another codec would be taken for a 32 bit one
+    let (codec, payload) = varint_decode::u64(data)?;
+    let codec = SerializationCodec::try_from(codec).map_err(|_| varint_decode::Error::Overflow)?;
+    Ok((codec, payload))
 }
 
 pub fn encode_multiformat<Value, Fmt: Format<Value>>(
